@@ -107,6 +107,11 @@ class Flow:
             b = frame.binds[head]
             if b is None:
                 return ".".join(["?"] + rest)
+            if len(b) == 3:
+                # alias of an unrolled literal loop: the expression lives in this very frame
+                inner = Frame(frame.fn, {k: v for k, v in frame.binds.items() if k != head}, frame.parent)
+                base = self.source(b[0], inner, b[1], depth + 1)
+                return ".".join([base or "?"] + rest) if rest else base
             base = self.source(b[0], frame.parent, b[1], depth + 1)
             return ".".join([base or "?"] + rest) if rest else base
         if frame is not None and head not in ("self", "cls") and depth < 12:
@@ -241,6 +246,8 @@ class Flow:
         w = ch.what
         lp = loops + list(ch.loops)
         g = guards + list(ch.guards)
+        if getattr(ch, "aliases", None) and frame is not None:
+            frame = Frame(frame.fn, dict(frame.binds, **{k: (v, loops, "alias") for k, v in ch.aliases.items()}), frame.parent)
         if isinstance(w, tuple) and w[0] == "via":
             cr, inner = w[1], w[2]
             fr = self.frame_for(cr, frame, lp)
